@@ -1056,7 +1056,7 @@ fn case_job(kind: u64, seed: u64, tier: String, base: Vec<Op>) -> impl FnOnce(&N
                     }
                 }
                 if kind == 1 && fz.rng.below(2) == 0 {
-                    // the regression of fix c28d8d2: an older file joins a model that holds newer-only children
+                    // the regression of fix 1b7bb3a: an older file joins a model that holds newer-only children
                     let v = 1u32 << fz.rng.below(9);
                     go!(Step::O(Op::CreateFile(0, b"old.arxml".to_vec(), v)));
                 }
